@@ -1069,7 +1069,41 @@ def rule_matchsrc(ctx):
             yield o
 
 
+RANGE_PRESERVING_KINDS = ("zero", "nearest", "linear", "previous", "next", "nearest-up", "slinear")
+
+
+def rule_voicinginterp(ctx):
+    """Voicing confidences are resampled with an interpolation that never leaves the range of its data (sample-and-hold,
+    nearest, piecewise linear): a spline (quadratic, cubic) over- and undershoots, so a voicing outside [0, 1] - and a
+    voicing false alarm below 0 / recall above 1 - comes out of valid input.  Every interp1d over the voicing array
+    takes a literal range-preserving kind, or the caller's `kind` under a guard that entails one."""
+    from .. import finmodel
+
+    R = "C01.VOICINGINTERP"
+    f = ctx.program.func("melody.resample_melody_series", R)
+    s = ctx.S.get(f.qual)
+    sites = [c for c in s.calls() if c.callee == "scipy.interpolate.interp1d" and len(c.args) >= 2 and "voicing" in tm.params_of(c.args[1]) and "frequencies" not in tm.params_of(c.args[1])]
+    need(len(sites) >= 1, R, "resample_melody_series: no interp1d over the voicing array found")
+    n = 0
+    for c in sites:
+        n += 1
+        kind = c.args[2] if len(c.args) > 2 else dict(c.kw).get("kind", tm.const("linear"))
+        if kind.op == "const":
+            good = kind.a[0] in RANGE_PRESERVING_KINDS
+            why = "voicing is resampled with kind=%r%s" % (kind.a[0], "" if good else ", which over/undershoots the data range")
+        else:
+            member = tm.cmp("in", kind, tm.mk("tuple", *[tm.const(k) for k in RANGE_PRESERVING_KINDS]))
+            facts_ = [(c0, p0) for c0, p0 in symeval.pc_conds(c.pc) if any(x is kind for x in tm.walk(c0))]
+            ent = finmodel.entails(facts_, member)
+            if ent is None:
+                raise AnalysisError(R, "resample_melody_series: cannot decide which kinds reach interp1d(times, voicing, %s)" % tm.show(kind, 2))
+            good = bool(ent)
+            why = "voicing is resampled with the caller's kind only under a guard that entails kind in %s" % (RANGE_PRESERVING_KINDS,) if good else "the caller's kind reaches interp1d(times, voicing, kind) without being restricted to %s (guard: %s): a quadratic / cubic spline leaves [0, 1]" % (RANGE_PRESERVING_KINDS, "; ".join("%s%s" % ("" if p0 else "not ", tm.show(c0, 3)) for c0, p0 in facts_))
+        yield ob(R, f, "melody.resample_melody_series:voicing-interp#%d" % n, good, why, node=c.node)
+
+
 RULES = [
+    ("C01.VOICINGINTERP", 2, rule_voicinginterp),
     ("C01.MATCHSRC", 4, rule_matchsrc),
     ("C01.WEIGHTEDMEAN", 4, rule_weightedmean),
     ("C01.FFORM", 2, rule_fform),
